@@ -149,10 +149,12 @@ def generate_dispatch(ov, arganal):
     calls = []
     if spo or po:
         req = len(spr + pr)
+        npos = len(spr + spo + pr + po)
         for i, arg in enumerate(spo + po):
+            # Keep the keyword parts (after the positional ones) in the call
             call = call_template.format(
-                lookup=join(lookup[: req + i], trail=True),
-                posargs=join(posargs[: req + i + 1]),
+                lookup=join(lookup[: req + i] + lookup[npos:], trail=True),
+                posargs=join(posargs[: req + i + 1] + posargs[npos + 1 :]),
                 mvar=mv,
             )
             call = textwrap.indent(call, "        ")
